@@ -38,3 +38,8 @@ pub fn tcp_packet(frame: &[u8], tracker: &mut TcpTracker, with_matcher: bool) ->
 pub fn set_clock(ms: Option<u64>) {
     huginn_net_tcp::verif_hooks::set_thread_now_ms(ms);
 }
+
+/// canonical rendering of a TLS result (the output type has no Debug)
+pub fn tls_out_str(o: &huginn_net_tls::TlsClientOutput) -> String {
+    format!("{}:{} -> {}:{} {:?}", o.source.ip, o.source.port, o.destination.ip, o.destination.port, o.sig)
+}
